@@ -111,6 +111,9 @@ def run(ctx, anchors=None):
                     if a.get("k") == "call" and a.get("n") in ("fprintf",) and any(x["k"] == "ref" and x["n"] == "stderr" for x in walk(a["args"][0])):
                         where = "argument of a stderr diagnostic"
                         break
+                    if a.get("k") == "call" and is_diag_call(a):
+                        where = "argument of a helper that only writes a stderr diagnostic"
+                        break
                     if a.get("k") == "if" and S.contains(a["cond"], n):
                         body = [x for x in walk(a["then"]) if x["k"] in ("call", "mcall", "assign", "cassign", "return", "opcall")]
                         only_diag = all((x["k"] == "call" and (x.get("n") in ("fprintf", "Join", "HexStr") or is_diag_call(x))) or (x["k"] == "mcall" and x.get("n") in ("c_str",)) or
